@@ -78,10 +78,13 @@ var (
 		{".*", ""},
 		{".*", "u|xd"},
 		{".*::d", ""},
+		// expressions that carry their own outer anchors around a top-level alternation:
+		// a full match still means the whole name ("d" or "k"), not prefix-d or suffix-k
+		{"^d|k$", ""}, {"d.*", "^d|k$"},
 		{"(", ""}, {"d", "("}, // invalid
 	}
 	dropsPair = []dk{{"", ""}, {"d", ""}, {"d|k", "k"}, {".*", ""}, {".*", "u|xd"}}
-	fromsWide = []string{"d", "^d$", "d|k", ".*", "zzz", "^$"}
+	fromsWide = []string{"d", "^d$", "d|k", ".*", "zzz", "^$", "^d|k$"}
 	fromsPair = []string{"d", "^d$", "d|k"}
 )
 
